@@ -27,8 +27,10 @@ Inductive exp :=
 | RaiseC (e : exp)
 | Guard (only : option nat) (tag : nat) (h body : exp)
                                          (* (guard (c ((eqv? c only) | #t   (push 7 tag) (push 6 c) h)) body) *)
-| CCall (body : exp).                    (* body runs in a procedure that C code calls back through a NESTED sexp_apply
+| CCall (body : exp)                     (* body runs in a procedure that C code calls back through a NESTED sexp_apply
                                             (comparator of srfi-95 sort, hash function of srfi-69, macro transformer in eval) *)
+| DynWindP (i p : nat) (body : exp).     (* dynamic-wind whose before/after thunks also READ parameter p:
+                                            (lambda () (push 1 i) (push (+ 10 p) (p_p))) ... (lambda () (push 2 i) (push (+ 10 p) (p_p))) *)
 
 (** ------------------------------------------------------------------ dynamic bindings *)
 (** handler closures: the [self] closure built by with-exception-handler (init-7.scm:1180-1192)
@@ -62,7 +64,8 @@ Fixpoint lookup_handler (a : alist) : option hclos :=
 (** ------------------------------------------------------------------ thunks, points, heap *)
 Inductive action :=
 | AEmit (k v : nat)
-| ASetParams (a : alist).                (* (thread-parameters-set! a) *)
+| ASetParams (a : alist)                 (* (thread-parameters-set! a) *)
+| AReadParam (p : nat).                  (* (push (+ 10 p) (p_p)): observes the parameter value the thunk runs with *)
 
 Definition thunk := list action.
 
